@@ -108,7 +108,7 @@ Definition to_legacy (tbl : list bytes) (o : chop) : res lop :=
               | K_Prop s => Ok (BK_Prop s)
               | K_Elem e => if is_zero_id e then Ok BK_Head else let* b := actor_of tbl e in Ok (BK_Elem b)
               end in
-  let* obj := if is_zero_id (co_obj o) then Ok BO_Root else let* b := actor_of tbl (co_obj o) in Ok (BO_Id b) in
+  let* obj := if is_root_id (co_obj o) then Ok BO_Root else let* b := actor_of tbl (co_obj o) in Ok (BO_Id b) in
   let* pred := actors_of tbl (co_pred o) in
   Ok (mkLop obj key (co_insert o) act pred).
 
